@@ -206,3 +206,44 @@ func VH_C16_Files() {
 	}
 	symCover("read-back")
 }
+
+// ---- C16.pair: what is loaded is what the bytes say, whatever was loaded before ---------------------
+
+// VH_C16_Pair: two compiled templates with the same name, the same timestamps and sources of the same
+// length (4 shapes each, symbolic letter inside) are serialised and loaded one after the other, on the
+// same engine or on two engines (symbolic): each load makes the engine render exactly like the source
+// inside the bytes it was given.
+func VH_C16_Pair() {
+	shapes := []string{"A{{ x }}%", "{{ x }}B%-", "{% if x %}%{% endif %}", "{{ x|upper }}%"}
+	mk := func() string {
+		s := shapes[symChoice(len(shapes))]
+		return vhReplace(s, "%", symStringIn(1, "pqr"))
+	}
+	src1, src2 := mk(), mk()
+	lm, ct := int64(symInt()), int64(symInt())
+	x := symStringIn(1, "ab")
+	ctx := map[string]interface{}{"x": x}
+	e1 := New()
+	e2 := e1
+	if symBool() {
+		e2 = New()
+		symTag("two-engines")
+	}
+	load := func(e *Engine, src string) (string, error) {
+		data, err := SerializeCompiledTemplate(&CompiledTemplate{Name: "t", Source: src, LastModified: lm, CompileTime: ct})
+		if err != nil {
+			return "", err
+		}
+		if err := e.LoadFromCompiledData(data); err != nil {
+			return "", err
+		}
+		return e.Render("t", ctx)
+	}
+	o1, err1 := load(e1, src1)
+	o2, err2 := load(e2, src2)
+	w1, werr1 := vhRenderFresh(src1, ctx)
+	w2, werr2 := vhRenderFresh(src2, ctx)
+	symCover("loaded")
+	symAssert((err1 == nil) == (werr1 == nil) && o1 == w1, "first-renders-like-its-source")
+	symAssert((err2 == nil) == (werr2 == nil) && o2 == w2, "second-renders-like-its-source")
+}
